@@ -1492,38 +1492,67 @@ func ruleWrapFileLoop(p *Prog, r *Report) {
 		errv := errResult(rc)
 		okExits, why := true, ""
 		nExits := 0
+		isEOFTest := func(b *ssa.BasicBlock, si int) bool {
+			ifi, isIf := b.Instrs[len(b.Instrs)-1].(*ssa.If)
+			if !isIf {
+				return false
+			}
+			if bo, ok := ifi.Cond.(*ssa.BinOp); ok && (bo.Op == token.EQL || bo.Op == token.NEQ) {
+				if (isErrOf(fn, bo.X, errv) && isEOFLoad(bo.Y)) || (isErrOf(fn, bo.Y, errv) && isEOFLoad(bo.X)) {
+					if (bo.Op == token.EQL && si == 0) || (bo.Op == token.NEQ && si == 1) {
+						return true
+					}
+				}
+			}
+			return false
+		}
+		// the region behind an exit edge: every return in it is either behind the true edge of an io.EOF test of the reader's
+		// error, or an error return that carries the accumulator
+		type exitState struct {
+			b   *ssa.BasicBlock
+			eof bool
+		}
+		var walkExit func(b *ssa.BasicBlock, eof bool, seen map[exitState]bool)
+		walkExit = func(b *ssa.BasicBlock, eof bool, seen map[exitState]bool) {
+			if seen[exitState{b, eof}] || inLoop[b] {
+				return
+			}
+			seen[exitState{b, eof}] = true
+			for _, in := range b.Instrs {
+				if ret, ok := in.(*ssa.Return); ok {
+					if eof {
+						return
+					}
+					if isNilConst(ret.Results[len(ret.Results)-1]) {
+						okExits, why = false, "loop is left early with a nil error at "+p.Pos(ret.Pos())
+					}
+					if isNilConst(ret.Results[0]) {
+						okExits, why = false, "error return at "+p.Pos(ret.Pos())+" drops the Maps read so far"
+					}
+					return
+				}
+			}
+			for si, s := range b.Succs {
+				walkExit(s, eof || isEOFTest(b, si), seen)
+			}
+		}
 		for b := range inLoop {
 			for si, s := range b.Succs {
 				if inLoop[s] {
 					continue
 				}
 				nExits++
-				ifi, isIf := b.Instrs[len(b.Instrs)-1].(*ssa.If)
-				eofExit := false
-				if isIf {
-					if bo, ok := ifi.Cond.(*ssa.BinOp); ok && (bo.Op == token.EQL || bo.Op == token.NEQ) {
-						if (isErrOf(fn, bo.X, errv) && isEOFLoad(bo.Y)) || (isErrOf(fn, bo.Y, errv) && isEOFLoad(bo.X)) {
-							if (bo.Op == token.EQL && si == 0) || (bo.Op == token.NEQ && si == 1) {
-								eofExit = true
-							}
-						}
+				if isEOFTest(b, si) {
+					continue
+				}
+				// a plain fall out of the loop (break) that is not the io.EOF edge and reaches code other than a return
+				if firstReturn(s) == nil {
+					if _, isIf := s.Instrs[len(s.Instrs)-1].(*ssa.If); !isIf {
+						okExits, why = false, "loop is left at "+p.Pos(b.Instrs[len(b.Instrs)-1].Pos())+" neither by the io.EOF test nor by an error return"
+						continue
 					}
 				}
-				if eofExit {
-					continue
-				}
-				// must be an error return
-				ret := firstReturn(s)
-				if ret == nil {
-					okExits, why = false, "loop is left at "+p.Pos(b.Instrs[len(b.Instrs)-1].Pos())+" neither by the io.EOF test nor by an error return"
-					continue
-				}
-				if isNilConst(ret.Results[len(ret.Results)-1]) {
-					okExits, why = false, "loop is left early with a nil error at "+p.Pos(ret.Pos())
-				}
-				if isNilConst(ret.Results[0]) {
-					okExits, why = false, "error return at "+p.Pos(ret.Pos())+" drops the Maps read so far"
-				}
+				walkExit(s, false, map[exitState]bool{})
 			}
 		}
 		if nExits == 0 {
